@@ -28,6 +28,8 @@ Steps:
   resolve <c> <tok> <result>                -> idle | <effects…>          (result = beh without `deferred`)
   expire <c> <serial>                       -> idle | done(<serial>,timeout)      (the deadline of a pending call passes)
   quiescent                                 -> yes | no
+  serial <c> <n>                            -> ok        (harness stream `net-shared`, clients = connections of ONE process drawing
+                                                          serials from one counter: client <c>'s next message gets serial <n>)
 Byte level (Net/Bytes.lean: `bstep`, `flush`, `busHandle`, `cliHandleAll`, `BNet.init`, `drain`, `pick`).  The codec is a
 TABLE filled by the harness with the bytes the real peers wrote: `enc m` = the newest entry under the text `showMsg m`
 (empty when there is none), `dec raw` = the first message serialised so far (`BNet.sent`) that the table maps to `raw`
@@ -306,6 +308,10 @@ def handle (s : St) (line : String) : St × String :=
     | some n, some firsts =>
       ({ St.init with net := Net.init n (fun j => firsts.getD j 1) }, "ok")
     | _, _ => bad s "reset"
+  | ["serial", c, n] =>
+    match nat? c, nat? n with
+    | some c, some n => ({ s with net := s.net.upd c (fun cl => { cl with nextSerial := n }) }, "ok")
+    | _, _ => bad s "serial"
   | "breset" :: n :: ts =>
     match nat? n, ts.mapM nat? with
     | some n, some firsts =>
